@@ -28,10 +28,10 @@ def definitions(text):
     return collections.Counter(c.strip() for c in re.split(r'\n\s*\n', text) if c.strip())
 
 
-def translate_defs(wb, opts=()):
+def translate_defs(wb, opts=(), variant='plain'):
     d = cexec.new_dir('e')
     try:
-        tr = cexec.translate(wb, d, 'm', opts, 'plain')
+        tr = cexec.translate(wb, d, 'm', opts, variant)
         if tr.rc != 0:
             return tr, None, None
         files = {}
@@ -137,6 +137,25 @@ def task(wid, seed, params):
                                                          'module_text': wasm.fmt_module(m)[:6000]}})
                 continue
             last_variant = wb
+        # (3b) "absent optional sections mean empty, never garbage": the MemorySanitizer build of the translator reads no
+        # uninitialised memory on the last variant and on the canonical encoding, and writes the same files as the plain build
+        for wbm, ref_files, what in ((last_variant, None, 'variant'), (canon, files0, 'canonical')):
+            if wbm is None:
+                continue
+            trm, defsm, filesm = translate_defs(wbm, opts, 'msan')
+            res['evaluations'] += 1
+            res['extra']['msan_translations'] += 1
+            bad = f2.classify_run(trm)
+            if bad or trm.rc != 0:
+                res['violations'].append({'signature': 'msan:%s' % (bad[1] if bad else trm.rc),
+                                          'summary': 'MemorySanitizer build of the translator on the %s encoding: %s [%s]' % (what, bad[1] if bad else 'exit %r' % trm.rc, mk),
+                                          'replay': {'kind': 'c08', 'canon_hex': canon.hex(), 'variant_hex': wbm.hex(), 'options': opts, 'msan': True,
+                                                     'stderr': trm.err.decode(errors='replace')[-2000:]}})
+                break
+            if ref_files is not None and filesm != ref_files:
+                res['violations'].append({'signature': 'msan-build-differs', 'summary': 'plain and MemorySanitizer builds of the translator write different files [%s]' % mk,
+                                          'replay': {'kind': 'c08', 'canon_hex': canon.hex(), 'variant_hex': canon.hex(), 'options': opts, 'msan': True}})
+                break
         # (4) behaviour of one padded encoding
         if last_variant is not None and ci % params['run_every'] == 0:
             st, info = f1.run_case(m, script, 'gcc-O0', (), wasm_bytes=last_variant, ninst=meta.get('ninst', 2))
@@ -212,6 +231,10 @@ def replay(rp):
         return f1.case_replay(rp)
     canon = bytes.fromhex(rp['canon_hex'])
     var = bytes.fromhex(rp['variant_hex'])
+    if rp.get('msan'):
+        tr0, defs0, files0 = translate_defs(canon, rp.get('options', []))
+        trm, defsm, filesm = translate_defs(var, rp.get('options', []), 'msan')
+        return bool(f2.classify_run(trm)) or trm.rc != 0 or (canon == var and filesm != files0)
     tr0, defs0, files0 = translate_defs(canon, rp.get('options', []))
     tr, defs, files = translate_defs(var, rp.get('options', []))
     if tr0.rc != 0 or tr.rc != 0:
